@@ -6,5 +6,7 @@ Inductive okind := KSelf | KData | KNdarray | KTensor | KTensorData.
 Inductive shape_src := SrcSelf | SrcRes.            (* self.shape | res.shape *)
 Inductive wrule := WKeep | WReset | WDefault.       (* weighting of self | constant 1, same exponent | none passed *)
 Record rule := mkRule { r_src : shape_src; r_w : wrule }.
+(* when the binary product-space wrapper pairs the components of self and x2 *)
+Inductive paircond := PairIfInSpace | PairIfSameType.   (* x2 in self.elem.space | isinstance(x2, type(self.elem)) *)
 (* conditions under which the discretized element refuses a method *)
 Inductive rcond := RAlways | RKeepdims | RNotAllElems.
